@@ -927,6 +927,12 @@ class Interp:
         if 'core::' in callee:
             callee = self.CORE_RX.sub(r'std::\1', callee)
         fn = self.find_model(callee)
+        if fn is None and (self.crate + '::') in callee:
+            # a downstream crate (the harness) names litep2p items with the crate prefix; the models do not
+            short = callee.replace(self.crate + '::', '')
+            fn = self.find_model(short)
+            if fn is not None:
+                callee = short
         if fn is not None:
             st = self.stats['models']
             st[callee] = st.get(callee, 0) + 1
